@@ -392,7 +392,8 @@ def apply_op(env, q, op, E):
 
 
 def query_sig(step):
-    return json.dumps([step.get('db'), step.get('fn'), step.get('args'), step.get('ops'), step.get('slot_from')], sort_keys=True, default=repr)
+    return json.dumps([step.get('k'), step.get('db'), step.get('fn'), step.get('args'), step.get('ops'), step.get('slot_from'),
+                       step.get('text'), step.get('locals'), step.get('post')], sort_keys=True, default=repr)
 
 
 def exec_step(env, step):
@@ -1037,10 +1038,30 @@ def run(ctx):
         def on_step(si, ti, step, r):
             if ti == 0:            # new session: uncommitted changes of the previous one were rolled back
                 state['mirror'] = copy.deepcopy(state['committed']); state['ref_off'] = state.get('ref_off_committed', False)
+            if ti == 0: state['tainted'] = set(); state['session_tainted'] = False
             want = cold_res[si][ti]
             ctx.count('steps'); ctx.count('steps.' + step['k'])
             if r[0] == 'exc': ctx.count('steps.raised')
             k = step['k']
+            # A step that reads a query/result slot written by a step that already disagreed (or that runs after a
+            # disagreeing modification) is a consequence, not a new observation: it is not judged.
+            reads = [('q', step[f]) for f in ('slot_from', 'slot') if step.get(f) is not None] + \
+                    [('r', step.get('res'))] * (k in ('qr_mutate', 'qr_read', 'qr_query'))
+            writes = [('q', step.get('slot_to'))] * (step.get('slot_to') is not None) + [('r', step.get('res'))] * (k == 'qr_make')
+            if state['session_tainted'] or state.get('history_tainted') or any(x in state['tainted'] for x in reads):
+                ctx.count('outcome.not_judged_downstream_of_disagreement')
+                state['tainted'].update(writes)
+                warm.event_log.append(k)
+                state['ref_off'] = True                       # the mirror is not maintained for unjudged steps
+                if k == 'commit': state['ref_off_committed'] = True
+                return
+            if r != want:
+                state['tainted'].update(writes)
+                if k == 'qr_mutate': state['tainted'].add(('r', step['res']))
+                if k in ('set', 'create', 'delete', 'bulk_delete', 'raw_dml', 'flush', 'set_global'): state['session_tainted'] = True
+                if k == 'commit': state['history_tainted'] = True
+            else:
+                for x in writes: state['tainted'].discard(x)
             # bookkeeping for the finding predicates
             sig = query_sig(step)
             if k == 'adapt':
@@ -1094,31 +1115,40 @@ def run(ctx):
                 singles = [(n, [d]) for n, d in gc.items() if n not in late] + list(warm.db_caches().items()) \
                           + [('query_results', [c.query_results for c in warm.session_caches()])] \
                           + [(n, [gc[n]]) for n in late]
+                # result caches of sessions with a pending (unflushed) change: an experiment that gets as far as
+                # executing SQL flushes, and flush discards cached results - those must not be put back afterwards
+                qr_pending = [c.query_results for c in warm.session_caches() if c.modified]
+                qr_all = [c.query_results for c in warm.session_caches()]
+                if qr_pending and k != 'adapt': state['session_tainted'] = True   # the experiments may flush earlier than the cold run did
                 snapshot = [(d, dict(d)) for _, dicts in singles for d in dicts]
-                def put_back():
+                def put_back(final=False):
                     for d, content in snapshot:
-                        d.clear(); d.update(content)
+                        d.clear()
+                        # the session result cache is only put back between experiments and only if no change was pending
+                        # (an experiment that gets as far as executing SQL flushes, and flush discards cached results)
+                        if any(d is q for q in qr_pending) or (final and any(d is q for q in qr_all)): continue
+                        d.update(content)
                 w['rerun_unchanged_caches'] = canon(exec_step(warm, step))
                 for name, dicts in singles:
                     put_back()
                     for d in dicts: d.clear()
                     again = canon(exec_step(warm, step))
                     if again == want: restored_by.append(name)
-                put_back()
+                put_back(final=True)
             w['restored_by_clearing_only'] = restored_by
             # ---- known mechanisms ---------------------------------------------------------------------------------
             if k == 'adapt' and step['style'] in ('format', 'pyformat') and 'adapted_sql' in restored_by:
                 earlier = [e for e in warm_adapted.get(step['style'], []) if e != step['sql'] and e.replace('%', '%%') == step['sql']]
                 if earlier:
                     w['earlier_text_equal_after_doubling'] = earlier[0]
-                    w['prelude'] = [first_use[('adapt', step['style'], earlier[0])]]
+                    w['prelude'] = [first_use[k_] for k_ in [('adapt', step['style'], earlier[0])] if k_ in first_use]
                     report_finding(ctx, F_ADAPT, w); return w
             if k == 'chain' and restored_by == ['extractors']:
                 mine = base_vars_of(step, None)
                 for op in step.get('ops') or ():
                     if op[0] in ('filter_str', 'where_str', 'order_str') and any(v != mine for v in warm_strops.get(op[1], ())):
                         w['string_applied_earlier_over_query_variables'] = sorted(warm_strops[op[1]])
-                        w['prelude'] = [first_use[('strop', op[1], v)] for v in sorted(warm_strops[op[1]]) if v != mine][:1]
+                        w['prelude'] = [first_use[('strop', op[1], v)] for v in sorted(warm_strops[op[1]]) if v != mine and ('strop', op[1], v) in first_use][:1]
                         report_finding(ctx, F_EXTR, w); return w
             if k in ('chain', 'strq', 'qr_query', 'qr_make') and restored_by == ['query_results']:
                 # (a) an earlier QueryResult of this session was reversed/sorted in place and the cached list IS that
